@@ -3,7 +3,7 @@ import itertools
 import os
 import pinhist
 import gen
-import devices  # noqa: F401
+import devices
 from . import funcases, servercases
 
 LEVEL = "proof"
@@ -116,20 +116,7 @@ def run(ctx):
     return res
 
 
-class PowerCycled:
-    """signer-mode device that drops off the bus at the first APDU and comes back in the bootloader"""
-
-    def __init__(self, inner):
-        self.inner = inner
-        self.cycled = False
-
-    def __call__(self, apdu):
-        if not self.cycled:
-            self.cycled = True
-            self.inner.mode = 2
-            self.inner.unlocked = False
-            return ("W",)
-        return self.inner(apdu)
+PowerCycled = devices.PowerCycled
 
 
 def reconnection_cases(rng):
